@@ -635,6 +635,79 @@ def run_emodcombi(ctx, idx, rng, tmp):
         ds.close()
 
 
+def run_long(ctx, idx, rng):
+    """A long measurement (scalar features only, more events than any block a hash or a copy
+    may work in): data and settings change only in the last events or between two reads; every
+    read of a computed feature is compared with a fresh dataset holding the current data."""
+    import dclab
+    n = int(rng.choice([8193, 8192 + 3000, 20000, 50003, 70001]))
+    base = {"deform": rng.uniform(0.005, 0.15, n), "area_um": rng.uniform(20, 200, n),
+            "frame": np.cumsum(rng.integers(1, 5, n)).astype(float),
+            "fl1_max": rng.uniform(10, 5000, n), "fl2_max": rng.uniform(10, 5000, n),
+            "ml_score_aaa": rng.uniform(0, 1, n), "ml_score_bbb": rng.uniform(0, 1, n)}
+    cfg = {"imaging": {"frame rate": 2000.0, "pixel size": 0.34},
+           "setup": {"channel width": 20.0, "flow rate": 0.04, "medium": "CellCarrier",
+                     "temperature": 23.0, "chip region": "channel"},
+           "calculation": {"emodulus lut": "LE-2D-FEM-19", "emodulus medium": "CellCarrier",
+                           "emodulus temperature": 23.0, "crosstalk fl12": 0.1,
+                           "crosstalk fl21": 0.05}}
+
+    def fresh(temp):
+        d = dclab.new_dataset({k: v.copy() for k, v in base.items()})
+        for sec, kv in cfg.items():
+            d.config[sec].update(kv)
+        for k, v in temp.items():
+            dclab.set_temporary_feature(d, k, v.copy())
+        return d
+
+    probes = ["ml_class", "time", "emodulus", "fl1_max_ctc"]
+    temp = {}
+    ds = fresh(temp)
+    hist = [["long measurement", n]]
+    ctx.count("long_measurements")
+
+    def compare(tag):
+        tw = fresh(temp)
+        for f in probes:
+            try:
+                got = np.asarray(ds[f])
+                want = np.asarray(tw[f])
+            except Exception as exc:
+                ctx.count(f"long_probe_unreadable[{f}:{type(exc).__name__}]")
+                continue
+            bad = ~((got == want) | (np.isnan(got) & np.isnan(want)))
+            ctx.check("c06.value_equals_fresh", not bad.any(),
+                      lambda: {"feature": f, "n": n, "history": hist[-6:], "when": tag,
+                               "n_differing": int(bad.sum()),
+                               "first_differing_event": int(np.flatnonzero(bad)[0]),
+                               "got": got[bad][:3], "fresh": want[bad][:3]},
+                      message=f"{f} of a dataset with {n} events differs from a fresh dataset "
+                              f"with the current data in {int(bad.sum())} events ({tag})")
+
+    compare("first read")
+    for step in range(int(rng.integers(2, 5))):
+        k = int(rng.integers(1, 40))
+        what = int(rng.integers(0, 3))
+        if what == 0:
+            arr = temp.get("ml_score_ccc", rng.uniform(0, 1, n)).copy()
+            arr[n - k:] = rng.uniform(0, 1, k)
+            temp["ml_score_ccc"] = arr
+            dclab.set_temporary_feature(ds, "ml_score_ccc", arr.copy())
+            hist.append(["temporary ml_score_ccc (re)placed; differs in the last", k])
+        elif what == 1:
+            v = float(rng.choice([0.0, 0.07, 0.2]))
+            cfg["calculation"]["crosstalk fl21"] = v
+            ds.config["calculation"]["crosstalk fl21"] = v
+            hist.append(["crosstalk fl21", v])
+        else:
+            v = float(rng.choice([21.0, 23.0, 25.5]))
+            cfg["calculation"]["emodulus temperature"] = v
+            ds.config["calculation"]["emodulus temperature"] = v
+            hist.append(["emodulus temperature", v])
+        compare(f"after step {step}")
+    ctx.mark_nontrivial(["long", n, hist])
+
+
 def run(spec, ctx):
     from vmon import boot
     register_plugin()
@@ -642,6 +715,8 @@ def run(spec, ctx):
     for idx in ctx.case_ids():
         rng = ctx.rng(idx, salt=0 if spec["kind"] == "hist" else 5)
         try:
+            if spec["kind"] == "hist" and idx % 40 == 9:
+                run_long(ctx, idx, rng)
             if spec["kind"] == "hist":
                 run_history(ctx, idx, rng, tmp)
             else:
